@@ -1550,14 +1550,22 @@ package yqlib
 //@ pred ownsItsChildren(r) = r != nil && fresh(r) && forall(i, 0, len(r.Content), r.Content[i] != nil && fresh(r.Content[i]) && r.Content[i].Parent == r)
 
 //@ func findInArray
-//@   trusted
+//@   props C11 C01
+//@   requires array != nil && item != nil
+//@   assume @children-non-nil-everywhere allnodes(m, kidsOK(m))
 //@   modifies \nothing
 //@   ensures 0 - 1 <= result && result < len(array.Content)
+//@   loop 1:
+//@     invariant 0 <= index
 
 //@ func findKeyInMap
-//@   trusted
+//@   props C11 C01
+//@   requires dataMap != nil && item != nil
+//@   assume @children-non-nil-everywhere allnodes(m, kidsOK(m))
 //@   modifies \nothing
 //@   ensures 0 - 1 <= result && result < len(dataMap.Content) && implies(result >= 0, result % 2 == 0)
+//@   loop 1:
+//@     invariant 0 <= index && index % 2 == 0
 
 //@ func omitMap
 //@   props C03 C16
@@ -1813,9 +1821,9 @@ package yqlib
 // lib.go / operator_contains.go: comparing two maps, and contains() on maps, look each key up among the KEYS of
 // the other map and read the value next to it (C01), never past the end (C11)
 //@ func recurseNodeObjectEqual
-//@   props C11 C01
+//@   props C11 C01 C08
 //@   nopre
-//@   noframe
+//@   modifies \nothing
 //@   requires lhs != nil && rhs != nil
 //@   assume @well-formed-maps len(lhs.Content) % 2 == 0 && len(rhs.Content) % 2 == 0 && forall(i, 0, len(lhs.Content), lhs.Content[i] != nil) && forall(i, 0, len(rhs.Content), rhs.Content[i] != nil)
 //@   at findKeyInMap: assert @a-key-is-looked-up-among-the-keys {C01} arg0 == rhs && arg1 == lhs.Content[index]
@@ -1824,9 +1832,9 @@ package yqlib
 //@     invariant 0 <= index && index % 2 == 0
 
 //@ func containsObject
-//@   props C11 C01
+//@   props C11 C01 C08
 //@   nopre
-//@   noframe
+//@   modifies \nothing
 //@   requires lhs != nil && rhs != nil
 //@   assume @well-formed-maps len(lhs.Content) % 2 == 0 && len(rhs.Content) % 2 == 0 && forall(i, 0, len(lhs.Content), lhs.Content[i] != nil) && forall(i, 0, len(rhs.Content), rhs.Content[i] != nil)
 //@   at findKeyInMap: assert @a-key-is-looked-up-among-the-keys {C01} arg0 == lhs && arg1 == rhs.Content[index]
@@ -1836,11 +1844,39 @@ package yqlib
 
 // comparisons read their operands and write nothing (assumed: the bodies recurse through each other)
 //@ func recursiveNodeEqual
-//@   trusted
+//@   props C08 C11
+//@   requires lhs != nil && rhs != nil
+//@   assume @children-non-nil-everywhere allnodes(m, kidsOK(m))
 //@   modifies \nothing
 
 //@ func contains
-//@   trusted
+//@   props C08 C11
+//@   requires lhs != nil && rhs != nil
+//@   assume @children-non-nil-everywhere allnodes(m, kidsOK(m))
+//@   modifies \nothing
+
+//@ func containsArray
+//@   props C08 C11
+//@   requires lhs != nil && rhs != nil
+//@   assume @children-non-nil-everywhere allnodes(m, kidsOK(m))
+//@   modifies \nothing
+
+//@ func containsArrayElement
+//@   props C08 C11
+//@   requires array != nil && item != nil
+//@   assume @children-non-nil-everywhere allnodes(m, kidsOK(m))
+//@   modifies \nothing
+
+//@ func containsScalars
+//@   props C08 C11
+//@   requires lhs != nil && rhs != nil
+//@   assume @children-non-nil-everywhere allnodes(m, kidsOK(m))
+//@   modifies \nothing
+
+//@ func recurseNodeArrayEqual
+//@   props C08 C11
+//@   requires lhs != nil && rhs != nil
+//@   assume @children-non-nil-everywhere allnodes(m, kidsOK(m))
 //@   modifies \nothing
 
 // front_matter.go: what follows the front matter is read from the input itself: the reader handed on is the
@@ -1937,7 +1973,31 @@ package yqlib
 //@   overlay
 //@   at traverseMergeAnchor: assert @a-merge-entry-is-read-through {C13} arg0 == newMatches && arg1 == value && arg2 == wantedKey && arg3 == prefs && arg4 == splat
 //@   at Set: assert @only-then-is-a-merge-entry-an-ordinary-entry {C13} key.Tag != "!!merge" || prefs.DontFollowAlias || wantedKey == "<<"
+//@   at keyMatches: assert @the-key-of-the-entry-is-compared-with-the-name-asked-for {C01,C03} arg0 == key && arg1 == wantedKey
+//@   at Set: assert @an-entry-is-taken-only-when-everything-or-its-key-is-asked-for {C01,C03} arg0 == newMatches && (splat || resultOf(keyMatches))
+//@   at Set#1: assert @the-key-of-the-entry {C01} arg2 == iface(key)
+//@   at Set#2: assert @the-value-of-the-entry {C01,C03} arg2 == iface(value)
 
 //@ func keyMatches
-//@   trusted
+//@   props C01 C03 C11
+//@   requires key != nil
 //@   modifies \nothing
+//@   ensures @a-plain-name-selects-the-key-spelt-that-way {C01,C03} implies(plainPattern(wantedKey), result == (key.Value == wantedKey))
+
+// matchKeyString.go: a pattern without `*` and `?` matches the name equal to it and no other (C01: `.a` reads
+// the entry whose key is `a`; C03: `del(.a)` removes that entry only); `*` alone matches everything
+//@ pred plainPattern(p) = forall(i, 0, len(p), p[i] != 42 && p[i] != 63)
+
+//@ func matchKey
+//@   props C01 C03 C11
+//@   modifies \nothing
+//@   ensures @a-plain-name-selects-the-key-spelt-that-way implies(plainPattern(pattern), matched == (name == pattern))
+//@   ensures @star-matches-everything implies(pattern == "*", matched)
+
+//@ func deepMatch
+//@   props C01 C03 C11
+//@   modifies \nothing
+//@   ensures @a-plain-name-selects-the-key-spelt-that-way implies(plainPattern(pattern), result == (name == pattern))
+//@   loop 1:
+//@     invariant 0 <= px && px <= len(pattern) && 0 <= nx && nx <= len(name) && 0 <= nextPx && nextPx <= len(pattern)
+//@     invariant @no-restart-point-without-a-star implies(plainPattern(pattern), px == nx && nextNx == 0 && name[0:nx] == pattern[0:px])
